@@ -219,11 +219,11 @@ func (c *Conn) RunWALTx(spec WALSpec) (res TxResult) {
 		}
 		if err := c.shm.Lock(c.Owner, WalRead0+1, WalRead0+4, true); err == nil {
 			canRestart = true
+			_ = c.shm.Unlock(c.Owner, WalRead0+1, WalRead0+4)
 		} else if err != drv.ErrBusy {
 			return fail("restart-probe", err)
 		}
-		// (LiteFS keeps the bytes granted before a refusal, so release either way)
-		_ = c.shm.Unlock(c.Owner, WalRead0+1, WalRead0+4)
+		// (a refused fcntl holds nothing: SQLite does not unlock after SQLITE_BUSY)
 	}
 	if canRestart {
 		nw := &ref.WALWriter{BigEndian: d.BigEndian, PageSize: d.PageSize}
